@@ -287,6 +287,9 @@ func mustPassBeforeSuccess(p *core.Program, ff *core.FuncFlow, call *ast.CallExp
 			if tc == call {
 				continue
 			}
+			if ff.Flow.PassedAt(r)[call] && ff.ErrNilAt(r, call) == 1 {
+				continue // the check passed before the verdict is handed on
+			}
 			return fmt.Sprintf("return at %s hands the verdict to another call without passing through the check", p.Rel(r.Pos()))
 		case core.RetUnknown:
 			if !ff.Flow.PassedAt(r)[call] {
